@@ -35,7 +35,7 @@ def options(tier):
 
 def mk_cfg(T, Fc, asc, o):
     return Cfg(T=T, Fc=Fc, asc=asc, pform='fn', tform='fn', bform='fn', ip=o['ip'], it=o['it'], if_=o['if_'], smear=o['smear'],
-               bound=False, nt=2, nf=2, ns=2, geom=None)
+               bound=False, nt=2, nf=3, ns=2, geom=None)
 
 
 def job_continuity(nfr, T, Fc, asc, oi, select):
